@@ -139,13 +139,14 @@ fn kind_name(k: &OpKind) -> String {
         OpKind::SameCell(..) => "same_cell".into(),
         OpKind::BumpViaRhs => "bump_via_rhs".into(),
         OpKind::Pull => "pull".into(),
-        OpKind::MkFresh(v) => format!("mk_fresh/{}", v % 4),
+        OpKind::MkFresh(v) => format!("mk_fresh/{}", v % 10),
         OpKind::SelfShow => "self_show".into(),
         OpKind::SelfSet(_) => "self_set".into(),
         OpKind::SelfTie => "self_tie".into(),
         OpKind::ReadViaParam => "read_via_param".into(),
         OpKind::AddViaParam(_) => "add_via_param".into(),
         OpKind::Attack(_) => "attack".into(),
+        OpKind::Valid(..) => "valid_on_unmodelled_cell".into(),
         OpKind::ApplyViaParam(op, _) => format!("apply({op}=)"),
         OpKind::TransferFrom(op, ..) => format!("transfer({op}=*)"),
         OpKind::CompareContents(..) => "compare_contents".into(),
@@ -535,7 +536,7 @@ pub fn run_concurrent(sc: &Scenario) -> RunReport {
             }
             let entries: Vec<&HistEntry> = hist
                 .iter()
-                .filter(|h| h.op.cell == cell && !matches!(h.op.kind, OpKind::Pull | OpKind::SelfShow | OpKind::SelfSet(_) | OpKind::SelfTie | OpKind::MkFresh(_) | OpKind::Attack(_) | OpKind::PairShow(_) | OpKind::PairSet(..) | OpKind::PairTie | OpKind::CompareContents(..)))
+                .filter(|h| h.op.cell == cell && !matches!(h.op.kind, OpKind::Pull | OpKind::SelfShow | OpKind::SelfSet(_) | OpKind::SelfTie | OpKind::MkFresh(_) | OpKind::Attack(_) | OpKind::Valid(..) | OpKind::PairShow(_) | OpKind::PairSet(..) | OpKind::PairTie | OpKind::CompareContents(..)))
                 .collect();
             if entries.len() <= 1 {
                 continue;
@@ -780,19 +781,15 @@ fn run_shared_fn(sc: &Scenario, mut rep: RunReport) -> RunReport {
     os::with(|o| o.stdout.clear());
     // the shared function: never executed before the threads start
     let Some((interp, f)) = build(&mut rep) else { return rep };
-    let mut codes: Vec<Vec<(String, Code)>> = Vec::new();
+    // the host calls themselves (`create_call` and `exec`) happen on the threads; only the argument
+    // values are prepared beforehand
+    let mut codes: Vec<Vec<(String, Vec<Variable>)>> = Vec::new();
     for t in &sc.threads {
         let mut v = Vec::new();
         for op in t {
             let OpKind::Attack(text) = &op.kind else { continue };
             let Some(args) = arg_values(&interp, text) else { continue };
-            match guarded(|| f.clone().create_call(args)) {
-                Ok(Ok(c)) => v.push((text.clone(), c)),
-                _ => {
-                    rep.harness_error = Some(format!("create_call rejected `{text}`"));
-                    return rep;
-                }
-            }
+            v.push((text.clone(), args));
         }
         codes.push(v);
     }
@@ -808,17 +805,20 @@ fn run_shared_fn(sc: &Scenario, mut rep: RunReport) -> RunReport {
     });
     let sh = shared.clone();
     let cs = codes.clone();
+    let fshared = f.clone();
     let exec = sched::run_once(sc.policy.clone(), sc.sched_seed, move || {
         sync::sim_begin(sh.lock_policy);
         let mut handles = Vec::new();
         for t in 0..cs.len() {
             let sh2 = sh.clone();
             let cs2 = cs.clone();
+            let f2 = fshared.clone();
             handles.push(shuttle::thread::spawn(move || {
-                for (i, (_, code)) in cs2[t].iter().enumerate() {
-                    let r = match code.exec() {
-                        Ok(v) => cvar(&v),
-                        Err(e) => format!("Err({})", exec_err_name(&e)),
+                for (i, (_, args)) in cs2[t].iter().enumerate() {
+                    let r = match f2.clone().create_call(args.clone()).map(|c| c.exec()) {
+                        Ok(Ok(v)) => cvar(&v),
+                        Ok(Err(e)) => format!("Err({})", exec_err_name(&e)),
+                        Err(e) => format!("rejected({})", crate::canon::cerror(&e)),
                     };
                     sh2.results.lock().unwrap().push((t * 1000 + i, r));
                 }
@@ -945,8 +945,13 @@ pub fn gen_concurrent(seed: u64, boot_seed: u64, run: u64) -> Scenario {
     if shared_code && rng.chance(1, 2) {
         let (prog, pool) = SHARED_FNS[rng.below(SHARED_FNS.len())];
         let calls = 1 + rng.below(3);
+        // half of the threads repeat one argument list (an implementation that remembers its last
+        // call meets the same arguments again while another thread interleaves different ones)
         let threads = (0..nthreads)
-            .map(|_| (0..calls).map(|_| Op { cell: 0, path: 0, kind: OpKind::Attack(pool[rng.below(pool.len())].to_string()) }).collect())
+            .map(|_| {
+                let fixed = if rng.chance(1, 2) { Some(rng.below(pool.len())) } else { None };
+                (0..calls + fixed.map_or(0, |_| 1)).map(|_| Op { cell: 0, path: 0, kind: OpKind::Attack(pool[fixed.unwrap_or_else(|| rng.below(pool.len()))].to_string()) }).collect()
+            })
             .collect();
         return Scenario { boot_seed, key_seed, mode: "shared_fn".into(), threads, prog: prog.to_string(), policy, sched_seed, lock_policy: 0 };
     }
